@@ -47,7 +47,7 @@ def collect(world, thorough=False):
     guards = set()
     n_fn = 0
     for (file, names) in SCOPE:
-        prog = world.program(PROGRAM_OF.get(file, "e2fsck"))
+        prog = world.program(PROGRAM_OF.get(file, "e2fsck"), plain=True)
         fns = prog.fns_in_file(file)
         if names is not None:
             fns = [f for f in fns if f.name in names]
@@ -168,7 +168,7 @@ def run(world, rep, tier, only=None):
 def _all_scope_fns(world):
     out = set()
     for (file, names) in SCOPE:
-        prog = world.program(PROGRAM_OF.get(file, "e2fsck"))
+        prog = world.program(PROGRAM_OF.get(file, "e2fsck"), plain=True)
         for f in prog.fns_in_file(file):
             out.add("%s:%s" % (f.file, f.name))
     return out
